@@ -33,7 +33,7 @@ def _err(label, e):
 
 
 def _sl(s):
-    return [s.start, s.stop]
+    return [s.start, s.stop] if isinstance(s, slice) else s
 
 
 # --------------------------------------------------------------------------- model check of one tiling object
@@ -95,6 +95,17 @@ def check_tiling(mon: Monitor, T, offs_y, offs_x, label: str, desc, deep: bool =
     return ok
 
 
+def spell(rng: random.Random, a: int, b: int, n: int):
+    """One of the equivalent ways of writing the index range [a, b) of an axis with n entries: explicit, open-ended (`:`, `a:`, `:b`), from the end, or a bare integer."""
+    opts = [slice(a, b)]
+    starts = [a] + ([a - n] if a > 0 else [None, None, 0, -n])
+    stops = [b] + ([b - n] if b < n else [None, None, n])
+    opts += [slice(rng.choice(starts), rng.choice(stops)) for _ in range(3)]
+    if b == a + 1:
+        opts += [a, a - n]
+    return rng.choice(opts)
+
+
 def check_crop(mon: Monitor, T, offs_y, offs_x, rng: random.Random, label: str, desc, ncrops: int = 3) -> None:
     """crop / slicing by tile-index ranges / clip_tiles against the model."""
     from odc.geo.roi import clip_tiles
@@ -110,6 +121,10 @@ def check_crop(mon: Monitor, T, offs_y, offs_x, rng: random.Random, label: str, 
         roi = (slice(r0, r1), slice(c0, c1))
         if rng.random() < 0.3:
             roi = (slice(r0 - ny, r1 if r1 < ny else None), slice(c0 if rng.random() < 0.5 else (c0 or None), c1))
+        elif rng.random() < 0.4:
+            roi = (spell(rng, r0, r1, ny), spell(rng, c0, c1, nx))
+            if not isinstance(roi[0], slice) and not isinstance(roi[1], slice):
+                roi = (slice(r0, r1), roi[1])  # (int, int) addresses one tile, not a range
         w = lambda **kw: {"tiling": desc, "tile_roi": [_sl(s) for s in roi], **kw}
         region, e = call(T.__getitem__, roi)
         want = (slice(offs_y[r0], offs_y[r1]), slice(offs_x[c0], offs_x[c1]))
@@ -312,6 +327,27 @@ def _gbt_case(mon, rng):
             for r, cc in itertools.product(range(r1 - r0), range(c1 - c0)):
                 okc = okc and gen.gbox_close(sub[r, cc], gbt[r0 + r, c0 + cc])
             mon.check(okc, "GeoboxTiles.crop", lambda: {**desc, "roi": [r0, r1, c0, c1], "sub_base": gen.gbox_desc(sub.base)}, key="gbt-crop", cls=fam)
+        # the same thing however the range is written: all rows / all columns with a proper subset on the other axis, open ends, negative offsets, a bare integer
+        for k in range(3):
+            r0, c0 = rng.randint(0, ny - 1), rng.randint(0, nx - 1)
+            r1, c1 = rng.randint(r0 + 1, ny), rng.randint(c0 + 1, nx)
+            if k == 0:
+                r0, r1 = 0, ny
+            elif k == 1:
+                c0, c1 = 0, nx
+            sy_, sx_ = spell(rng, r0, r1, ny), spell(rng, c0, c1, nx)
+            sub, ex = call(lambda: gbt.crop[sy_, sx_])
+            wsp = lambda: {**desc, "selector": [_sl(sy_) if isinstance(sy_, slice) else sy_, _sl(sx_) if isinstance(sx_, slice) else sx_], "means": [r0, r1, c0, c1], "exc": ex,
+                           "sub_shape": None if sub is None else tuple(sub.shape), "sub_base": None if sub is None else gen.gbox_desc(sub.base)}
+            if ex is not None:
+                mon.fail("GeoboxTiles.crop", wsp(), key="gbt-crop-raises")
+                continue
+            okc = tuple(sub.shape) == (r1 - r0, c1 - c0) and gen.gbox_close(sub.base, gb[oy[r0]:oy[r1], ox[c0]:ox[c1]])
+            okc = okc and tuple(map(tuple, sub.chunks)) == (tuple(np.diff(oy[r0:r1 + 1]).tolist()), tuple(np.diff(ox[c0:c1 + 1]).tolist()))
+            for r, cc in itertools.product(range(r1 - r0), range(c1 - c0)):
+                okc = okc and gen.gbox_close(sub[r, cc], gbt[r0 + r, c0 + cc])
+            full = ("full-rows" if (r0, r1) == (0, ny) else "") + ("full-cols" if (c0, c1) == (0, nx) else "")
+            mon.check(okc, "GeoboxTiles.crop", wsp, key="gbt-crop", cls=fam + "|spelled" + ("|" + full if full else ""))
         sel = sorted({(rng.randint(0, ny - 1), rng.randint(0, nx - 1)) for _ in range(rng.randint(1, 4))})
         res, ex = call(gbt.clip, sel)
         if ex is not None:
